@@ -90,7 +90,7 @@ CHECKS = {
     "C02": ("L+S", "other",
             "every calculate_* function called through its validators on quantities with symbolic scale factors (lifted native execution, forks at comparisons/zero tests); returned expression substituted into the module's published equation; residual decided by z3 (QF_NRA) over all magnitudes",
             "For each function that survives lifted execution (counted; the rest is listed unencoded with the reason) z3 decides on every path that the returned value satisfies the published law for ALL magnitudes of the arguments in the domain (positive reals in the quick tier; all reals in the thorough tier), magnitude/ceiling results being judged on their argument.",
-            "Trusted: z3 nlsat, Sym2SMT, vlib/lift.py stubs incl. Quantity._eval_is_positive and float(); SymPy solve/subs run as part of the code under test. Float literals are read as the short rationals (or rational multiples of pi) they were written as. Laws about functions (derivative/integral/two-instant forms) are read through the samples the decorators declare (straight line through two samples; slopes from *_change_ pairs): other function-valued laws and integer parameters are unencoded. Laws written as a sum over an index whose function takes the terms as one sequence: lists of 1-4 lifted quantities against the sum written out (checks/c02_seqlaws.py). Every judged call comes after an ordinary call with other arguments; the published equations are compared before and after it. Vector modules: mutual-inverse pairs of *_law functions and calculate_* wrappers against their law function on symbolic 3-vectors (non-zero components); the two Maxwell curl modules (field arguments) against each other and the textbook curl (checks/c02_fieldlaws.py). Laws with an argument-dependent exponent are NOT decided (spurious models; three concrete probe points are replayed instead, a failing one is reported). Complex-valued laws: real and imaginary part of the residual. A coverage floor (refs/coverage_floor.json) turns a silent loss of encoded obligations into a harness error.",
+            "Trusted: z3 nlsat, Sym2SMT, vlib/lift.py stubs incl. Quantity._eval_is_positive and float(); SymPy solve/subs run as part of the code under test. Float literals are read as the short rationals (or rational multiples of pi) they were written as. Laws about functions (derivative/integral/two-instant forms) are read through the samples the decorators declare (straight line through two samples; slopes from *_change_ pairs): other function-valued laws and integer parameters are unencoded. Laws written as a sum over an index whose function takes the terms as one sequence: lists of 1-4 lifted quantities against the sum written out (checks/c02_seqlaws.py). Every judged call comes after an ordinary call with other arguments; the published equations are compared before and after it. Vector modules: mutual-inverse pairs of *_law functions and calculate_* wrappers against their law function on symbolic 3-vectors (non-zero components); the two Maxwell curl modules (field arguments) against each other and the textbook curl (checks/c02_fieldlaws.py). Laws with an argument-dependent exponent are NOT decided (spurious models; three concrete probe points with double-like magnitudes are replayed instead, a failing one is reported, holding ones decide nothing). Complex-valued laws: real and imaginary part of the residual. A coverage floor (refs/coverage_floor.json) turns a silent loss of encoded obligations into a harness error.",
             "3.2"),
     "C09": ("X", "other",
             "CrossHair symbolic execution (z3) of the real id/name/subscript/clone helpers over symbolic ints, strings and Optional[bool] flags, with refuted-twin vacuity guards; constructors exercised concretely at digit-boundary counter states",
